@@ -320,7 +320,41 @@ pub fn run_pair(_w: &RWorld, i: &Input) -> Obs {
 }
 
 // ------------------------------------------------------------------ satisfier on insane scripts
-pub fn g_sat(w: &RWorld, rng: &mut Rng, _idx: u64) -> (Input, &'static str) {
+/// Directed cases: a raw key hash the satisfier cannot resolve (its dissatisfaction is Unavailable)
+/// next to a non-canonical, signature-carrying dissatisfaction (and_v(v:pk(A),pk(B)): sat(A) dsat(B))
+/// under or_i, as the `d` child of or_d / or_c / or_b / thresh, whose arms assert `!dis.has_sig`.
+/// Found by an independent tester on the unchanged tree (malleable mode picks the only available
+/// dissatisfaction, which has a signature). Shapes x key masks (bit i = signature for key i).
+pub const SAT_RAWPKH_SHAPES: &[&str] = &[
+    "or_d(or_i(c:expr_raw_pkh(H),and_v(v:pk(A),pk(B))),pk(C))",
+    "and_v(or_c(or_i(c:expr_raw_pkh(H),and_v(v:pk(A),pk(B))),v:pk(C)),pk(D))",
+    "or_b(or_i(c:expr_raw_pkh(H),and_v(v:pk(A),pk(B))),s:pk(C))",
+    "or_b(pk(C),a:or_i(c:expr_raw_pkh(H),and_v(v:pk(A),pk(B))))",
+    "thresh(1,or_i(c:expr_raw_pkh(H),and_v(v:pk(A),pk(B))),s:pk(C))",
+    "thresh(2,pk(C),a:or_i(c:expr_raw_pkh(H),and_v(v:pk(A),pk(B))),s:pk(D))",
+    "andor(or_i(c:expr_raw_pkh(H),and_v(v:pk(A),pk(B))),pk(C),pk(D))",
+    "or_d(or_i(and_v(v:pk(A),pk(B)),c:expr_raw_pkh(H)),pk(C))",
+];
+pub const SAT_RAWPKH_MASKS: &[u32] = &[0b0001, 0b0011, 0b0101, 0b1111, 0b1110, 0];
+pub fn sat_rawpkh_text(w: &RWorld, shape: &str, tap: bool) -> String {
+    shape
+        .replace("H", "1111111111111111111111111111111111111111")
+        .replace("(A)", &format!("({})", w.hexkey(0, tap)))
+        .replace("(B)", &format!("({})", w.hexkey(1, tap)))
+        .replace("(C)", &format!("({})", w.hexkey(2, tap)))
+        .replace("(D)", &format!("({})", w.hexkey(3, tap)))
+}
+
+pub fn g_sat(w: &RWorld, rng: &mut Rng, idx: u64) -> (Input, &'static str) {
+    let n_dir = (SAT_RAWPKH_SHAPES.len() * SAT_RAWPKH_MASKS.len() * 2) as u64;
+    if idx < n_dir {
+        let i = idx as usize;
+        let tap = i % 2 == 1;
+        let shape = SAT_RAWPKH_SHAPES[(i / 2) % SAT_RAWPKH_SHAPES.len()];
+        let keys = SAT_RAWPKH_MASKS[i / 2 / SAT_RAWPKH_SHAPES.len()];
+        let ms = sat_rawpkh_text(w, shape, tap);
+        return (Input::Sat { ms, ctx: if tap { 3 } else { 2 }, keys, pre: 0, lt: 0, seq: 0 }, "rawpkh-unresolved-under-d-child");
+    }
     let ctx = *pick(rng, &[0u8, 1, 2, 2, 2, 3, 3, 3]);
     let seed = rng.next();
     let depth = 1 + rng.below(5) as u32;
